@@ -231,6 +231,63 @@ fn many_contents_case(ctx: &mut Ctx, case: u64) {
     ctx.count("archives_with_more_than_131072_distinct_contents");
 }
 
+/// Eight threads serialise the same logical archives at the same time (each thread builds its own objects from the
+/// same seeds, along a different history); every output must equal the one computed alone on the main thread.
+fn threads_case(ctx: &mut Ctx, case: u64) {
+    let seed = ctx.rng("c16.threads", case).next();
+    let one = |k: u64, hist: u32| -> Result<Result<u64, String>, crate::obs::PanicInfo> {
+        let mut rng = Rng::new(seed ^ k.wrapping_mul(0x9E37_79B9_7F4A_7C15));
+        let class = if k % 3 == 0 { crate::gen::SizeClass::Medium } else { crate::gen::SizeClass::Small };
+        let l = crate::gen::gen_logical(&mut rng, class, R::CODECS[(k % 4) as usize]);
+        let mut hr = Rng::new(seed ^ k ^ u64::from(hist));
+        guard(|| build(&l, hist, false, &mut hr).map(|b| hash_bytes(&b)))
+    };
+    let n_arch = 8u64;
+    let alone: Vec<_> = (0..n_arch).map(|k| one(k, 0)).collect();
+    let handles: Vec<_> = (0..8u32)
+        .map(|t| {
+            std::thread::spawn(move || {
+                let one = |k: u64, hist: u32| -> Result<Result<u64, String>, crate::obs::PanicInfo> {
+                    let mut rng = Rng::new(seed ^ k.wrapping_mul(0x9E37_79B9_7F4A_7C15));
+                    let class = if k % 3 == 0 { crate::gen::SizeClass::Medium } else { crate::gen::SizeClass::Small };
+                    let l = crate::gen::gen_logical(&mut rng, class, R::CODECS[(k % 4) as usize]);
+                    let mut hr = Rng::new(seed ^ k ^ u64::from(hist));
+                    guard(|| build(&l, hist, false, &mut hr).map(|b| hash_bytes(&b)))
+                };
+                (0..n_arch).map(|k| one((k + u64::from(t)) % n_arch, [0u32, 1, 2, 3, 4][(t % 5) as usize])).map(|r| r.map_err(|p| p.msg)).collect::<Vec<_>>()
+            })
+        })
+        .collect();
+    for (t, h) in handles.into_iter().enumerate() {
+        match h.join() {
+            Err(_) => ctx.violation("PMTiles::to_writer", "thread-panic", "a thread serialising archives panicked", &format!("thread {t}"), json!({"thread": t})),
+            Ok(v) => {
+                for (j, r) in v.into_iter().enumerate() {
+                    let k = (j as u64 + t as u64) % n_arch;
+                    let want = match &alone[k as usize] {
+                        Ok(Ok(h)) => *h,
+                        _ => continue,
+                    };
+                    match r {
+                        Ok(Ok(h)) if h == want => ctx.count("outputs_from_concurrent_threads_identical"),
+                        Ok(Ok(_)) => ctx.violation(
+                            "PMTiles::to_writer",
+                            "thread-dependent",
+                            "output bytes differ when other threads use the library at the same time",
+                            &format!("archive {k} written by thread {t} differs from the same archive written alone"),
+                            json!({"thread": t, "archive": k}),
+                        ),
+                        Ok(Err(e)) => ctx.violation("PMTiles::to_writer", "error", "building or writing along a valid history failed", &format!("thread {t}: {e}"), json!({"thread": t})),
+                        Err(msg) => ctx.violation("PMTiles::to_writer", "thread-panic", "a thread serialising archives panicked", &msg, json!({"thread": t})),
+                    }
+                }
+            }
+        }
+    }
+    ctx.case(hash_u64s(&[seed, 1618]), true);
+    ctx.count("concurrent_thread_rounds");
+}
+
 fn xproc(ctx: &mut Ctx) {
     // every process computes the same K outputs; the driver compares them across OS processes
     let k = ctx.n(48, 240);
@@ -270,6 +327,14 @@ pub fn run(ctx: &mut Ctx) {
         if ctx.mine(case) {
             ctx.begin(case);
             many_contents_case(ctx, case);
+            ctx.end(case);
+        }
+    }
+    for k in 0..ctx.n(4, 64) {
+        let case = n + 100 + k;
+        if ctx.mine(case) {
+            ctx.begin(case);
+            threads_case(ctx, case);
             ctx.end(case);
         }
     }
